@@ -7,7 +7,8 @@ import ast
 
 from sa.core import Ob
 from sa.pm import AnalysisError, norm, body_nodes
-from sa import gi, df, ru
+from sa import gi, df, ru, sym
+from sa.pm import Undecided
 from sa.gi import GuardWalker, SymbolicAtomizer, IntSet, iv
 from sa.ef import writes_in
 
@@ -42,118 +43,89 @@ def _clean(d):
     return {k: v for k, v in d.items() if v != 0}
 
 
+_REF = None
+
+
+def _ref():
+    global _REF
+    if _REF is None:
+        import os
+        _REF = ast.parse(open(os.path.join(os.path.dirname(os.path.dirname(os.path.abspath(__file__))), "spec", "ref_chain.py")).read())
+    return _REF
+
+
+INTS = lambda t: t in ("index", "idx", "size", "old_length", "i1", "i2", "shorter_len", "max_weight", "weight") or t.startswith("len(")
+
+
+def _refcheck(ctx, rel, dotted, refname, key):
+    fi = ctx.p.functions.get(ctx.p.module(rel).name + "." + dotted)
+    if fi is None:
+        fi = ctx.func(rel, dotted)
+    return sym.against_reference(ctx, fi, _ref(), refname, key, INTS)
+
+
 # ------------------------------------------------------------------ C15.1
 def c15_1(ctx):
     f = ctx.func(BC, "BlockChain._longest_local_block_chain")
-    loops = [n for n in body_nodes(f.node) if isinstance(n, ast.For)]
-    ok = len(loops) == 1 and norm(loops[0].iter) == "self.chain_finder.all_chains_ending_at(self.parent_hash)"
-    ctx.check(ok, "candidates", ctx.where(f), "the candidates are not all chains ending at the anchor (self.parent_hash)")
-    if not ok:
-        return
-    lp = loops[0]
-    wd = [st for st in lp.body if isinstance(st, ast.Assign) and norm(st.targets[0]) == "weight"]
-    ok = len(wd) == 1 and norm(wd[0].value) == "sum((self.weight_lookup.get(h, 0) for h in %s))" % norm(lp.target)
-    ctx.check(ok, "weight-is-current-sum", ctx.where(f, lp),
-              "a chain's weight is `%s`; it must be recomputed as the sum of the current weights of its members each time (a memo keyed by the tip goes stale when the chain is shortened by locking)" % ([norm(w.value) for w in wd]),
-              sample={"weight": [norm(w.value) for w in wd]})
-    ifs = [st for st in lp.body if isinstance(st, ast.If)]
-    ok = len(ifs) == 1 and norm(ifs[0].test) in ("weight > max_weight", "max_weight < weight") and {norm(s) for s in ifs[0].body} == {"longest = %s" % norm(lp.target), "max_weight = weight"} and not ifs[0].orelse
-    ctx.check(ok, "argmax-idiom", ctx.where(f, lp), "the incumbent is not replaced exactly under weight > max_weight with both the chain and the weight updated")
-    t = norm(f.node)
-    ctx.check("max_weight = 0" in t and "longest: list[Any] = []" in t and "self._longest_chain_cache = longest[:-1]" in t and "if self._longest_chain_cache is None:" in t and "return self._longest_chain_cache" in t, "anchor-dropped-once", ctx.where(f),
-              "the result is not the best chain without its anchor, memoised until invalidated")
+    _refcheck(ctx, BC, "BlockChain._longest_local_block_chain", "bc_longest", "selection")
     for w in writes_in(f):
         ctx.check(w.text == "self._longest_chain_cache = ...", "selection-state:%s" % w.text, ctx.where(f, w.node), "_longest_local_block_chain keeps state in `%s`; only the result memo may be written here (anything else survives lock_to_index / add_headers unnoticed)" % w.text,
                   what="write:%s" % w.text, sample={"write": w.text})
-    # invalidation
+    # invalidation on delivery: old chain read -> headers loaded -> memo dropped -> new chain read
     a = ctx.func(BC, "BlockChain.add_headers")
-    top = [norm(s) for s in a.node.body]
-    i_load = [i for i, s in enumerate(top) if s == "self.chain_finder.load_nodes(iterate())"]
-    i_reset = [i for i, s in enumerate(top) if s == "self._longest_chain_cache = None"]
-    i_old = [i for i, s in enumerate(top) if s == "old_longest_chain = self._longest_local_block_chain()"]
-    i_new = [i for i, s in enumerate(top) if s == "new_longest_chain = self._longest_local_block_chain()"]
-    ok = len(i_load) == 1 and len(i_reset) == 1 and len(i_old) == 1 and len(i_new) == 1 and i_old[0] < i_load[0] < i_reset[0] < i_new[0]
-    ctx.check(ok, "memo-reset-on-delivery", ctx.where(a), "add_headers does not read the old chain, load the headers, drop the memo and recompute, in that order")
+    w = sym.walk(ctx, a)
+    seq = []
+    for e in w.effects:
+        if e.kind == "call" and norm(e.raw.func) == "self._longest_local_block_chain" and not e.loops:
+            seq.append("read")
+        elif e.kind == "call" and norm(e.raw.func).endswith("chain_finder.load_nodes"):
+            seq.append("load")
+        elif e.kind == "setattr" and norm(e.target) == "self" and e.attr == "_longest_chain_cache":
+            seq.append("reset" if isinstance(e.value, ast.Constant) and e.value.value is None else "set")
+    core = [x for x in seq]
+    ok = "load" in core and "reset" in core and core.index("load") < core.index("reset") and "read" in core[:core.index("load")] and "read" in core[core.index("reset"):]
+    ctx.check(ok, "memo-reset-on-delivery", ctx.where(a), "add_headers does not read the old chain, load the headers, drop the memo and recompute, in that order (sequence: %s)" % core, sample={"sequence": core})
     l = ctx.func(BC, "BlockChain.lock_to_index")
-    stores = [st for st in body_nodes(l.node) if isinstance(st, ast.Assign) and norm(st.targets[0]) == "self._longest_chain_cache"]
-    ok = len(stores) == 1 and norm(stores[0].value) in ("longest_chain[:-index]", "longest_chain[:len(longest_chain) - index]")
-    ctx.check(ok, "memo-kept-on-lock", ctx.where(l),
+    wl = sym.walk(ctx, l, int_names=INTS)
+    stores = [e for e in wl.effects if e.kind == "setattr" and norm(e.target) == "self" and e.attr == "_longest_chain_cache"]
+    vals = sorted({norm(e.value) for e in stores})
+    n_ = "index - len(self._locked_chain)"
+    want = {"self._longest_local_block_chain()[:-(%s)]" % n_, "self._longest_local_block_chain()[:-index + len(self._locked_chain)]", "self._longest_local_block_chain()[:len(self._locked_chain) - index]"}
+    ctx.check(len(vals) == 1 and vals[0] in want, "memo-kept-on-lock", ctx.where(l),
               "lock_to_index sets the memo to `%s`; locking must not change the reported chain, so the memo has to become the unlocked remainder of the chain reported so far (recomputing lets a tie between equal-weight chains break the other way, "
-              "leaving hash_to_index_lookup stale and no add/remove operations emitted)" % [norm(s.value) for s in stores], sample={"memo_after_lock": [norm(s.value) for s in stores]})
+              "leaving hash_to_index_lookup stale and no add/remove operations emitted)" % vals, sample={"memo_after_lock": vals})
 
 
 # ------------------------------------------------------------------ C15.2
 def c15_2(ctx):
+    _refcheck(ctx, BC, "BlockChain.add_headers", "bc_add_headers", "operations")
     a = ctx.func(BC, "BlockChain.add_headers")
-    loops = [n for n in a.node.body if isinstance(n, ast.For)]
-    rm = [lp for lp in loops if any("'remove'" in norm(s) for s in lp.body)]
-    ad = [lp for lp in loops if any("'add'" in norm(s) for s in lp.body)]
-    ok = len(rm) == 1 and len(ad) == 1
-    ctx.check(ok, "op-loops", ctx.where(a), "add_headers does not have one removal loop and one addition loop")
-    if not ok:
-        return
-    def parts(lp, kind):
-        op = [s for s in lp.body if isinstance(s, ast.Assign) and norm(s.targets[0]) == "op"]
-        idx_expr = norm(op[0].value.elts[2]) if op and isinstance(op[0].value, ast.Tuple) and len(op[0].value.elts) == 3 else None
-        blk = norm(op[0].value.elts[1]) if idx_expr else None
-        app = any(norm(s) == "ops.append(op)" for s in lp.body)
-        if kind == "remove":
-            mp = [s for s in lp.body if isinstance(s, ast.Delete) and norm(s.targets[0]) == "self.hash_to_index_lookup[h]"]
-            mexpr = idx_expr if mp else None
-        else:
-            mp = [s for s in lp.body if isinstance(s, ast.Assign) and norm(s.targets[0]) == "self.hash_to_index_lookup[h]"]
-            mexpr = norm(mp[0].value) if mp else None
-        return idx_expr, blk, app, bool(mp), mexpr
-    ri, rb, rapp, rmap, _ = parts(rm[0], "remove")
-    ai, ab, aapp, amap, am = parts(ad[0], "add")
-    ctx.check(ri == "size - idx - 1" and rb == "self.block_for_hash(h)" and rapp and rmap, "remove-lockstep", ctx.where(a, rm[0]), "every ('remove', block, k) is not paired with `del hash_to_index_lookup[h]` (k = %s)" % ri, sample={"remove_index": ri})
-    ctx.check(ai == "size - idx - 1" and ab == "self.block_for_hash(h)" and aapp and amap and am == ai, "add-lockstep", ctx.where(a, ad[0]),
-              "('add', block, %s) is recorded while hash_to_index_lookup[h] = %s: the operations and the index map disagree" % (ai, am), sample={"add_index": ai, "map_index": am})
-    ctx.check(norm(rm[0].iter) == "enumerate(old_path)" and norm(ad[0].iter) == "reversed(list(enumerate(new_path)))" and a.node.body.index(rm[0]) < a.node.body.index(ad[0]), "op-order", ctx.where(a),
-              "removals (tip first) are not emitted before additions (root first)")
-    sizes = [(norm(s.value), a.node.body.index(s)) for s in a.node.body if isinstance(s, ast.Assign) and norm(s.targets[0]) == "size"]
-    ok = len(sizes) == 2 and sizes[0][0] == "len(old_longest_chain) + len(self._locked_chain)" and sizes[1][0] == "len(new_longest_chain) + len(self._locked_chain)" and sizes[0][1] < a.node.body.index(rm[0]) < sizes[1][1] < a.node.body.index(ad[0])
-    ctx.check(ok, "sizes", ctx.where(a), "removal indices are not counted from the old chain length and addition indices from the new one (plus the locked prefix): %s" % sizes)
-    t = norm(a.node)
-    ctx.check("for callback in self.change_callbacks:\n        callback(self, ops)" in t and "return ops" in t, "callbacks-get-ops", ctx.where(a), "callbacks do not receive the returned operation list")
-    ctx.check("old_path, new_path = self.chain_finder.find_ancestral_path(old_longest_chain[0], new_longest_chain[0])" in t and "old_path = old_path[:-1]" in t and "new_path = new_path[:-1]" in t, "diff-by-common-ancestor", ctx.where(a),
-              "the operations are not the two branches up to (excluding) the common ancestor")
+    w = sym.walk(ctx, a, int_names=INTS)
+    # every ('add', block, k) appended in a loop is paired with hash_to_index_lookup[h] = k in the same iteration
+    adds = [e for e in w.effects if e.kind == "call" and norm(e.raw.func).endswith(".append") and e.call.args and isinstance(e.call.args[0], ast.Tuple) and len(e.call.args[0].elts) == 3
+            and isinstance(e.call.args[0].elts[0], ast.Constant) and e.call.args[0].elts[0].value == "add" and e.loops]
+    if not adds:
+        raise Undecided("add_headers: no ('add', block, index) appended inside a loop")
+    for e in adds:
+        idx = norm(e.call.args[0].elts[2])
+        maps = [x for x in w.effects if x.kind == "setitem" and norm(x.target) == "self.hash_to_index_lookup" and x.loops and x.loops[-1].node is e.loops[-1].node]
+        ctx.check(len(maps) == 1 and norm(maps[0].value) == idx, "add-lockstep", ctx.where(a, e.node),
+                  "('add', block, %s) is recorded while hash_to_index_lookup[h] = %s: the operations and the index map disagree" % (idx, [norm(m.value) for m in maps]), sample={"add_index": idx, "map_index": [norm(m.value) for m in maps]})
+    rms = [e for e in w.effects if e.kind == "call" and norm(e.raw.func).endswith(".append") and e.call.args and isinstance(e.call.args[0], ast.Tuple) and len(e.call.args[0].elts) == 3
+           and isinstance(e.call.args[0].elts[0], ast.Constant) and e.call.args[0].elts[0].value == "remove" and e.loops]
+    for e in rms:
+        dels = [x for x in w.effects if x.kind == "delitem" and norm(x.target) == "self.hash_to_index_lookup" and x.loops and x.loops[-1].node is e.loops[-1].node]
+        ctx.check(len(dels) == 1, "remove-lockstep", ctx.where(a, e.node), "a ('remove', block, k) operation is not paired with `del hash_to_index_lookup[h]`")
 
 
 # ------------------------------------------------------------------ C15.3
 def c15_3(ctx):
-    # index assigned by add_headers to tip-first position j:  i = size - j - 1,  size = n + L
-    assign = _lin(ast.parse("size - idx - 1", mode="eval").body, {"size": {"n": 1, "L": 1}, "idx": {"j": 1}})
-    t = ctx.func(BC, "BlockChain.tuple_for_index")
-    subs = [n for n in body_nodes(t.node) if isinstance(n, ast.Subscript) and norm(n.value) == "longest_chain"]
-    ok = len(subs) == 1
-    read = None
-    if ok:
-        # index -= size happened before: position (from the end) = -(i - L) - 1  ->  tip-first position n + that
-        read = _lin(subs[0].slice, {"index": {"i": 1, "L": -1}})
-        if read is not None:
-            pos = dict(read)
-            pos["n"] = pos.get("n", 0) + 1          # negative index -> n + index
-            # substitute i by the assigned index
-            comp = {k: v for k, v in pos.items() if k != "i"}
-            for k, v in assign.items():
-                comp[k] = comp.get(k, 0) + pos.get("i", 0) * v
-            ok = _clean(comp) == {"j": 1}
-        else:
-            ok = False
-    ctx.check(ok, "read-inverts-assignment", ctx.where(t), "tuple_for_index reads position `%s` of the tip-first chain for index i - L; composed with the assignment i = size - j - 1 this is not the identity" % (norm(subs[0].slice) if subs else None),
-              sample={"assigned_index": "size - j - 1 (size = n + L)", "read_position": norm(subs[0].slice) if subs else None})
-    tt = norm(t.node)
-    ctx.check("size = len(self._locked_chain)" in tt and "if index < size:" in tt and "return self._locked_chain[index]" in tt and "index -= size" in tt, "locked-prefix-read", ctx.where(t), "indices below the locked length are not served from the locked chain")
-    ctx.check("parent_hash = self.parent_hash if index <= 0 else self._longest_chain_cache[-index]" in tt, "parent-read", ctx.where(t), "the parent of index i is not the anchor for the first unlocked entry and the entry below otherwise")
-    ctx.check("if index < 0:" in tt and "index = self.length() + index" in tt, "negative-index", ctx.where(t), "negative indices are not counted from the tip")
-    l = ctx.func(BC, "BlockChain.lock_to_index")
-    lt = norm(l.node)
-    ok = "for idx in range(index):" in lt and "the_hash = longest_chain[-idx - 1]" in lt and "parent_hash = self.parent_hash if idx <= 0 else self._longest_chain_cache[-idx]" in lt and "self._locked_chain.append(item)" in lt and "self.parent_hash = the_hash" in lt
-    ctx.check(ok, "lock-order", ctx.where(l), "lock_to_index does not move entries root first (position -idx-1) into the locked chain and advance the anchor")
-    ctx.check("index -= old_length" in lt and "if index < 1:" in lt, "lock-count", ctx.where(l), "lock_to_index does not lock exactly index - locked_length further entries")
-    ln = ctx.func(BC, "BlockChain.length")
-    ctx.check("return len(self._longest_local_block_chain()) + len(self._locked_chain)" in norm(ln.node), "length", ctx.where(ln), "length is not locked + unlocked")
+    _refcheck(ctx, BC, "BlockChain.tuple_for_index", "bc_tuple_for_index", "index-read")
+    _refcheck(ctx, BC, "BlockChain.lock_to_index", "bc_lock_to_index", "lock-order")
+    _refcheck(ctx, BC, "BlockChain.length", "bc_length", "length")
+    _refcheck(ctx, CF, "ChainFinder.find_ancestral_path", "cf_find_ancestral_path", "common-ancestor")
+    _refcheck(ctx, CF, "ChainFinder.maximum_path", "cf_maximum_path", "maximum-path")
+    _refcheck(ctx, CF, "ChainFinder.all_chains_ending_at", "cf_all_chains_ending_at", "candidates")
 
 
 # ------------------------------------------------------------------ C15.4
@@ -169,14 +141,8 @@ def c15_4(ctx):
                   "meld_new_hashes removes an element from the work set with `%s`; elements taken by pop() become the bottom of a path and have descendents_by_top consulted for them, an element removed any other way is never looked up there, "
                   "so orphan subtrees waiting on it are never joined (arrival orders where the parent arrives in the same batch as another of its children)" % norm(c), what="removal:%s" % norm(c), sample={"removal": norm(c)})
     ctx.check(any(c.func.attr == "pop" for c in removals), "work-set-pop", ctx.where(f), "meld_new_hashes does not consume the work set by pop()")
-    t = norm(f.node)
-    ctx.check("while len(%s) > 0:" % ws in t and "bottom_descendents = self.descendents_by_top.get(bottom_h)" in t and "top_descendents = self.descendents_by_top.setdefault(top_h, set())" in t, "waiting-table-consulted", ctx.where(f),
-              "the waiting table is not consulted for the bottom of every new path")
-    ctx.check("preceding_path = self.trees_from_bottom.get(h)" in t and "path.extend(preceding_path)" in t and "self.descendents_by_top[preceding_path[-1]].remove(preceding_path[0])" in t, "extend-existing-path", ctx.where(f), "an existing path above is not absorbed with its waiting-table entry fixed up")
-    ctx.check("prior_path.extend(path[1:])" in t and "top_descendents.update(bottom_descendents)" in t and "del self.descendents_by_top[bottom_h]" in t and "top_descendents.add(bottom_h)" in t, "join-below", ctx.where(f), "paths waiting on the new bottom are not extended and re-registered under the new top")
-    ln = ctx.func(CF, "ChainFinder.load_nodes")
-    t = norm(ln.node)
-    ctx.check("if h in self.parent_lookup:\n            continue" in t and "self.parent_lookup[h] = parent" in t and "new_hashes.add(h)" in t and "self.meld_new_hashes(new_hashes)" in t, "load-dedup", ctx.where(ln), "load_nodes does not ignore already known hashes and meld the new ones")
+    _refcheck(ctx, CF, "ChainFinder.meld_new_hashes", "cf_meld", "meld")
+    _refcheck(ctx, CF, "ChainFinder.load_nodes", "cf_load_nodes", "load-dedup")
 
 
 # ------------------------------------------------------------------ C15.5
@@ -184,41 +150,28 @@ def c15_5(ctx):
     a = ctx.func(BC, "BlockChain.add_headers")
     it = ctx.p.functions.get(a.qualname + ".iterate")
     if it is None:
-        raise AnalysisError("add_headers.iterate not found")
-    w = GuardWalker(ru.opaque)
-    w.run(it.node.body)
-    from rules.C01 import can_be
-    known = ("self.is_hash_known(h)", "h in self.hash_to_index_lookup")
-    for st, r in w.visits:
-        if isinstance(st, ast.Expr) and isinstance(st.value, ast.Yield):
-            ops = gi.f_opaques(r)
-            ok = any(k in ops for k in known) and not any(can_be(gi.f_and(r, ("op", k)), "\0") for k in known if k in ops)
-            ctx.check(ok, "known-hashes-skipped", ctx.where(it, st),
-                      "add_headers hands every delivered header to the finder (guards %s); after lock_to_index the rebuilt finder no longer knows the locked hashes while hash_to_index_lookup does, so a re-delivered locked header is loaded "
-                      "as a new root and its descendants drop out of the reported chain" % ops, sample={"guards": ops})
-    t = norm(it.node)
-    ctx.check("self.weight_lookup[h] = header.difficulty" in t and "yield (h, header.previous_block_hash)" in t, "header-registration", ctx.where(it), "add_headers does not register weight and parent of each header")
-    k = ctx.func(BC, "BlockChain.is_hash_known")
-    ctx.check("return the_hash in self.hash_to_index_lookup" in norm(k.node), "known-definition", ctx.where(k), "is_hash_known is not membership in hash_to_index_lookup")
-    # the rebuild after locking carries over every tree of the old finder (orphans included)
-    l = ctx.func(BC, "BlockChain.lock_to_index")
-    li = ctx.p.functions.get(l.qualname + ".iterate")
-    if li is None:
-        raise AnalysisError("lock_to_index.iterate not found")
-    loops = [n for n in li.node.body if isinstance(n, ast.For)]
-    ok = len(loops) == 1 and norm(loops[0].iter) == "old_chain_finder.trees_from_bottom.values()"
-    ctx.check(ok, "rebuild-keeps-all-trees", ctx.where(li), "the finder rebuilt by lock_to_index is fed from `%s`; it must carry over every tree of the old finder, including orphan subtrees still waiting for a parent" % ([norm(x.iter) for x in loops]),
-              sample={"source": [norm(x.iter) for x in loops]})
-    t = norm(li.node)
-    ctx.check("if c in excluded:\n                break" in t and "excluded.add(c)" in t and "yield (c, old_chain_finder.parent_lookup[c])" in t, "rebuild-excludes-locked", ctx.where(li), "the rebuild does not stop each tree at the first locked / already emitted node")
-    lt = norm(l.node)
-    ctx.check("excluded.add(the_hash)" in lt and "self.chain_finder = ChainFinder()" in lt and "self.chain_finder.load_nodes(iterate())" in lt, "rebuild-shape", ctx.where(l), "lock_to_index does not rebuild the finder without the locked hashes")
+        raise Undecided("add_headers has no inner generator `iterate` any more")
+    w = sym.walk(ctx, it)
+    known = {"truthy(self.is_hash_known(header.hash()))", "header.hash() in self.hash_to_index_lookup"}
+    ys = [e for e in w.effects if e.kind == "yield"]
+    if not ys:
+        raise Undecided("add_headers.iterate yields nothing")
+    for e in ys:
+        ops = gi.f_opaques(e.reach) if e.reach not in (True, False) else []
+        ks = [o for o in ops if o in known]
+        ok = bool(ks) and all(sym.entails(e.reach, ("not", ("op", k))) for k in ks)
+        ctx.check(ok, "known-hashes-skipped", ctx.where(it, e.node),
+                  "add_headers hands every delivered header to the finder (guards %s); after lock_to_index the rebuilt finder no longer knows the locked hashes while hash_to_index_lookup does, so a re-delivered locked header is loaded "
+                  "as a new root and its descendants drop out of the reported chain" % ops, sample={"guards": ops})
+    _refcheck(ctx, BC, "BlockChain.add_headers.iterate", "bc_add_headers_iterate", "header-registration")
+    _refcheck(ctx, BC, "BlockChain.is_hash_known", "bc_is_hash_known", "known-definition")
+    _refcheck(ctx, BC, "BlockChain.lock_to_index.iterate", "bc_lock_iterate", "rebuild-keeps-all-trees")
 
 
 OBLIGATIONS = [
-    Ob("C15.1", "selection idiom: weight = current sum, strict argmax, memo reset on delivery and kept (as remainder) on lock", c15_1, floor=7, engines="DF,EF,GI", breaks_if="forks with ties; memoised weights across lock_to_index"),
-    Ob("C15.2", "add/remove operations and hash_to_index_lookup change in lock-step with one index expression", c15_2, floor=7, engines="DF"),
-    Ob("C15.3", "index assignment, index read-back and lock order are mutually inverse affine maps", c15_3, floor=7, engines="LIN"),
-    Ob("C15.4", "work-set consumption consistency in meld_new_hashes (pop only)", c15_4, floor=6, engines="DF,CFG", breaks_if="orphan subtree waiting on a block that arrives in the same batch as another of its children"),
-    Ob("C15.5", "one notion of `known hash`; the rebuilt finder keeps every tree", c15_5, floor=6, engines="DF,CFG", breaks_if="re-delivery of a locked header; orphans delivered before a lock"),
+    Ob("C15.1", "selection idiom: weight = current sum, strict argmax, memo reset on delivery and kept (as remainder) on lock", c15_1, floor=4, engines="SYM,EF", breaks_if="forks with ties; memoised weights across lock_to_index"),
+    Ob("C15.2", "add/remove operations and hash_to_index_lookup change in lock-step with one index expression", c15_2, floor=3, engines="SYM"),
+    Ob("C15.3", "index read-back, lock order, common ancestor and candidate enumeration equal the reference transcription", c15_3, floor=6, engines="SYM"),
+    Ob("C15.4", "work-set consumption consistency in meld_new_hashes (pop only)", c15_4, floor=4, engines="DF,SYM", breaks_if="orphan subtree waiting on a block that arrives in the same batch as another of its children"),
+    Ob("C15.5", "one notion of `known hash`; the rebuilt finder keeps every tree", c15_5, floor=4, engines="SYM", breaks_if="re-delivery of a locked header; orphans delivered before a lock"),
 ]
